@@ -44,6 +44,11 @@ def check(run):
         n = rng.randrange(4, 9 if quick else 14)
         keys = ["k%d" % i for i in range(n)]
         adocs = dict((k, cworld.rand_adoc(rng, k)) for k in keys)
+        if wi % 3 == 1:
+            # long fields: per-document lengths are kept in one byte (exact up to 10 terms only); the collection
+            # totals built from them must not depend on the layout either
+            for k in rng.sample(keys, 2):
+                adocs[k]["t"]["body"] = adocs[k]["t"].get("body", []) + [world.rand_term(rng) for _ in range(rng.randrange(8, 30))]
         dels = rng.sample(keys, rng.randrange(0, 3)) if rng.random() < 0.6 else []
         scores = {}
         for li, plan in enumerate(layouts(rng, keys, dels)):
